@@ -50,7 +50,7 @@ func init() {
 		ID: "C06", NeedsServer: true,
 		Explanation: "decides the shape of the server's sequence assignment (accept iff seq == Cseq+1 with exactly one Sseq increment, ignore iff seq <= Cseq, otherwise MissingOps), that the stored key is an injective format over (duid, sseq) under the unique _id, the commit order, and that no storage error is dropped. NOT decided: that log, end-of-log and checkpoints agree after every request of every history; the success criterion of UpdateDatatype under equal timestamps.",
 		Assumptions: []string{"MongoDB enforces uniqueness of _id"},
-		Rules:       []ruleFn{func(w *World, r *Report) { ruleR06_1(w, r, false) }, ruleR06_2, ruleR06_3, ruleR06_4, ruleR05_3},
+		Rules:       []ruleFn{func(w *World, r *Report) { ruleR06_1(w, r, false) }, ruleR06_2, ruleR06_3, ruleR06_4, ruleR05_3, ruleR05_5},
 	})
 	register(&propertySpec{
 		ID: "C07", NeedsServer: true,
@@ -65,7 +65,8 @@ func init() {
 		ID: "C08", NeedsServer: true,
 		Explanation: "decides that storage errors surface (none is dropped on the way to the response), that every failure leaves through the error pack, that the client turns every code the server can send into a returned error instead of a panic, that the reply/unlock discipline covers the panic path, and whether the push commit is atomic or idempotent (known finding F14: it is neither). NOT decided: recovery after a restart and convergence after retries.",
 		Assumptions: []string{"a panic in the handler goroutine is recovered by the deferred exit function"},
-		Rules:       []ruleFn{ruleR06_4, ruleR08_2, ruleR08_3, ruleR08_4, ruleR16_1, ruleR16_2, ruleR16_4, ruleR05_1, ruleR06_3},
+		Rules: []ruleFn{ruleR06_4, ruleR08_2, ruleR08_3, ruleR08_4, ruleR16_1, ruleR16_2, ruleR16_4, ruleR05_1, ruleR06_3,
+			func(w *World, r *Report) { ruleR06_1(w, r, false) }},
 	})
 	register(&propertySpec{
 		ID: "C09",
